@@ -175,6 +175,12 @@ def check_sets(case, rec: Rec) -> None:
     rec.nontrivial = len(sel) >= 2 and any("\n" in n["body"] or n["kind"] in ("CLOSED_TODO", "CANCELED_TODO") for n in sel)
 
 
+def sample_view(case):
+    if "page" in case:
+        return P.render(case["page"], case["today"])[0] + "\n".join(case.get("odd", []))
+    return f"pages {sorted(case['dir'])}; S note W {case['kinds']} O {case['order']} ({'zoq' if case['zoq'] else 'execute'})"
+
+
 def parts(tier):
     quick = tier == "quick"
     return [HypPart(name="notes", check=check_notes, strategy=_note_case,
